@@ -8,30 +8,31 @@ import (
 	"sort"
 	"strconv"
 	"strings"
+	"sync"
 	"time"
 
 	"golang.org/x/tools/go/ssa"
 )
 
 type FuncResult struct {
-	Key      string
-	Display  string
-	Pkg      string
-	Props    []string
-	Obligs   []*Oblig
-	Notes    []string
-	Paths    int
-	Returns  int
-	Panics   int
-	Capped   bool
-	Vacuous  string
-	WallMs   int64
-	Error    string
-	Trusted  bool
-	Specs    []string
-	Inputs   []string
-	fn       *ssa.Function
-	fc       *FuncContract
+	Key     string
+	Display string
+	Pkg     string
+	Props   []string
+	Obligs  []*Oblig
+	Notes   []string
+	Paths   int
+	Returns int
+	Panics  int
+	Capped  bool
+	Vacuous string
+	WallMs  int64
+	Error   string
+	Trusted bool
+	Specs   []string
+	Inputs  []string
+	fn      *ssa.Function
+	fc      *FuncContract
 }
 
 var basePreamble = []string{
@@ -107,19 +108,23 @@ func isIdentChar(c byte) bool {
 	return c == '_' || c >= '0' && c <= '9' || c >= 'a' && c <= 'z' || c >= 'A' && c <= 'Z'
 }
 
-// compileSpecs produces a define-funs-rec block.
+// compileSpecs emits the spec functions in dependency order: non-recursive
+// ones as define-fun (expanded eagerly by the solvers), recursive SCCs as
+// define-funs-rec.
 func (e *Engine) compileSpecs(specs []*SpecFunc) (string, error) {
 	if len(specs) == 0 {
 		return "", nil
 	}
-	var decls, bodies []string
+	type comp struct{ decl, body string }
+	compiled := map[string]comp{}
+	byName := map[string]*SpecFunc{}
 	for _, sf := range specs {
+		byName[sf.Name] = sf
 		_, vals, pd := specParamSorts(sf)
 		ret := "Int"
 		if _, isBool := specResult(sf, "x").(Bool); isBool {
 			ret = "Bool"
 		}
-		decls = append(decls, "("+smtSym("spec."+sf.Name)+" ("+strings.Join(pd, " ")+") "+ret+")")
 		x := &Exec{eng: e, usedSpecs: map[string]bool{}, notes: map[string]bool{}}
 		env := &Env{x: x, vars: map[string]Val{}, pkg: e.tpkgs[sf.Pkg], spec: true}
 		names, _, _ := specParamSorts(sf)
@@ -144,9 +149,84 @@ func (e *Engine) compileSpecs(specs []*SpecFunc) (string, error) {
 		if err != nil {
 			return "", err
 		}
-		bodies = append(bodies, body)
+		compiled[sf.Name] = comp{"(" + smtSym("spec."+sf.Name) + " (" + strings.Join(pd, " ") + ") " + ret + ")", body}
 	}
-	return "(define-funs-rec (" + strings.Join(decls, " ") + ") (" + strings.Join(bodies, " ") + "))", nil
+	// dependency graph
+	deps := map[string][]string{}
+	for _, sf := range specs {
+		for _, other := range specs {
+			if containsIdent(sf.Text[strings.Index(sf.Text, "{"):], other.Name) {
+				deps[sf.Name] = append(deps[sf.Name], other.Name)
+			}
+		}
+	}
+	// Tarjan SCC; emission order = reverse topological (dependencies first)
+	index := 0
+	idx := map[string]int{}
+	low := map[string]int{}
+	on := map[string]bool{}
+	var stack []string
+	var sccs [][]string
+	var strong func(v string)
+	strong = func(v string) {
+		idx[v], low[v] = index, index
+		index++
+		stack = append(stack, v)
+		on[v] = true
+		for _, w := range deps[v] {
+			if _, seen := idx[w]; !seen {
+				strong(w)
+				if low[w] < low[v] {
+					low[v] = low[w]
+				}
+			} else if on[w] && idx[w] < low[v] {
+				low[v] = idx[w]
+			}
+		}
+		if low[v] == idx[v] {
+			var scc []string
+			for {
+				w := stack[len(stack)-1]
+				stack = stack[:len(stack)-1]
+				on[w] = false
+				scc = append(scc, w)
+				if w == v {
+					break
+				}
+			}
+			sccs = append(sccs, scc)
+		}
+	}
+	for _, sf := range specs {
+		if _, seen := idx[sf.Name]; !seen {
+			strong(sf.Name)
+		}
+	}
+	var out []string
+	for _, scc := range sccs {
+		selfRec := false
+		if len(scc) == 1 {
+			for _, d := range deps[scc[0]] {
+				if d == scc[0] {
+					selfRec = true
+				}
+			}
+		}
+		if len(scc) == 1 && !selfRec {
+			c := compiled[scc[0]]
+			// (define-fun name (params) ret body): decl is "(name (params) ret)"
+			out = append(out, "(define-fun "+c.decl[1:len(c.decl)-1]+" "+c.body+")")
+			continue
+		}
+		sort.Strings(scc)
+		var decls, bodies []string
+		for _, n := range scc {
+			decls = append(decls, compiled[n].decl)
+			bodies = append(bodies, compiled[n].body)
+		}
+		out = append(out, "(define-funs-rec ("+strings.Join(decls, " ")+") ("+strings.Join(bodies, " ")+"))")
+	}
+	return strings.Join(out, "\n"), nil
 }
 
 func (x *Exec) useSpec(sf *SpecFunc) {
@@ -221,7 +301,99 @@ type VerifyOpts struct {
 	InlineDepth   int
 }
 
-func (e *Engine) VerifyFunction(fn *ssa.Function, fc *FuncContract, opts VerifyOpts) (res *FuncResult) {
+func (e *Engine) VerifyFunction(fn *ssa.Function, fc *FuncContract, opts VerifyOpts) *FuncResult {
+	bits := 0
+	if v := fc.Opts["split"]; v != "" {
+		bits = atoi(v)
+	}
+	if bits == 0 {
+		return e.verifyShard(fn, fc, opts, 0, 0)
+	}
+	n := 1 << uint(bits)
+	parts := make([]*FuncResult, n)
+	var wg sync.WaitGroup
+	for i := 0; i < n; i++ {
+		wg.Add(1)
+		go func(i int) {
+			defer wg.Done()
+			shardSem <- struct{}{}
+			defer func() { <-shardSem }()
+			parts[i] = e.verifyShard(fn, fc, opts, i, bits)
+		}(i)
+	}
+	wg.Wait()
+	return mergeResults(parts)
+}
+
+var shardSem = make(chan struct{}, 16)
+
+func mergeResults(parts []*FuncResult) *FuncResult {
+	res := parts[0]
+	byName := map[string]*Oblig{}
+	for _, o := range res.Obligs {
+		byName[o.Name] = o
+	}
+	notes := map[string]bool{}
+	for _, n := range res.Notes {
+		notes[n] = true
+	}
+	for _, p := range parts[1:] {
+		for _, o := range p.Obligs {
+			m := byName[o.Name]
+			if m == nil {
+				byName[o.Name] = o
+				res.Obligs = append(res.Obligs, o)
+				continue
+			}
+			m.Instances += o.Instances
+			m.Unsat += o.Unsat
+			m.Ms += o.Ms
+			m.Failures = append(m.Failures, o.Failures...)
+			for k, v := range o.Engines {
+				m.Engines[k] += v
+			}
+			if m.Kind != "unbound" && o.Kind == "unbound" {
+				m.Kind, m.Text = o.Kind, o.Text
+			}
+			if m.Sample == "" {
+				m.Sample = o.Sample
+			}
+		}
+		for _, n := range p.Notes {
+			notes[n] = true
+		}
+		res.Paths += p.Paths
+		res.Returns += p.Returns
+		res.Panics += p.Panics
+		res.Capped = res.Capped || p.Capped
+		if res.Error == "" {
+			res.Error = p.Error
+		}
+		if p.WallMs > res.WallMs {
+			res.WallMs = p.WallMs
+		}
+	}
+	// vacuity: some shard must have reached a feasible normal return
+	vac := ""
+	anyCover := false
+	for _, p := range parts {
+		if p.Vacuous == "" && p.Returns > 0 {
+			anyCover = true
+		}
+		if p.Vacuous != "" {
+			vac = p.Vacuous
+		}
+	}
+	if anyCover {
+		vac = ""
+	}
+	res.Vacuous = vac
+	// obligations that only exist because no write/panic happened: keep discharged
+	res.Notes = sortedKeys(notes)
+	return res
+}
+
+func (e *Engine) verifyShard(fn *ssa.Function, fc *FuncContract, opts VerifyOpts, shard, shardBits int) (res *FuncResult) {
 	t0 := time.Now()
 	res = &FuncResult{Key: ckey(fc.Pkg, fc.Key), Display: displayName(fn), Pkg: fc.Pkg, Props: fc.Props, fn: fn, fc: fc}
 	defer func() {
@@ -258,7 +430,7 @@ func (e *Engine) VerifyFunction(fn *ssa.Function, fc *FuncContract, opts VerifyO
 	defer sess.Close()
 	x := &Exec{eng: e, sess: sess, top: fn, fc: fc, obligs: map[string]*Oblig{}, declared: map[string]bool{}, usedSpecs: map[string]bool{},
 		notes: map[string]bool{}, pathCap: opts.PathCap, safetyNames: map[ssa.Instruction]string{}, raceTimeout: opts.RaceTimeoutS,
-		inlineDepth: opts.InlineDepth, curFnName: displayName(fn)}
+		inlineDepth: opts.InlineDepth, curFnName: displayName(fn), shard: shard, shardBits: shardBits}
 	if v := fc.Opts["pathcap"]; v != "" {
 		x.pathCap = atoi(v)
 	}
@@ -355,6 +527,11 @@ func (e *Engine) VerifyFunction(fn *ssa.Function, fc *FuncContract, opts VerifyO
 			}
 		}
 		env := x.postEnv(st2, fr, o.Vals)
+		type pend struct {
+			ob   *Oblig
+			goal string
+		}
+		var pends []pend
 		for _, c := range fc.Ensures {
 			if c.When == "panic" {
 				continue
@@ -365,7 +542,32 @@ func (e *Engine) VerifyFunction(fn *ssa.Function, fc *FuncContract, opts VerifyO
 				x.unbound(ob, err)
 				continue
 			}
-			x.check(st2, ob, goal)
+			pends = append(pends, pend{ob, goal})
+		}
+		// fast path: all postconditions of this path in one query
+		if len(pends) > 1 && x.owns(st2) {
+			var gs []string
+			for _, p := range pends {
+				gs = append(gs, p.goal)
+			}
+			if r, ms, _ := sess.CheckNot(sAnd(gs...), nil); r == "unsat" {
+				for _, p := range pends {
+					p.ob.Instances++
+					p.ob.Unsat++
+					p.ob.Engines["z3-new(live)"]++
+					p.ob.Ms += ms / int64(len(pends))
+					if p.ob.Sample == "" {
+						p.ob.Sample = p.goal
+						if len(p.ob.Sample) > 400 {
+							p.ob.Sample = p.ob.Sample[:400] + "…"
+						}
+					}
+				}
+				pends = nil
+			}
+		}
+		for _, p := range pends {
+			x.check(st2, p.ob, p.goal)
 		}
 		if fc.HasAssign && len(fc.Assigns) > 0 {
 			// make sure the frame obligation exists even if no write happened
